@@ -84,7 +84,7 @@ func psiGenDescs(r *Rng, budget int) []*astits.Descriptor {
 func psiDescsSize(ds []*astits.Descriptor) int {
 	n := 0
 	for _, d := range ds {
-		n += 2 + len(refDescBody(d))
+		n += 2 + len(psiRefDescBody(d))
 	}
 	return n
 }
@@ -99,7 +99,7 @@ func psiFillDescs(r *Rng, budget int) []*astits.Descriptor {
 		}
 		d := psiGenDesc(r, 0)
 		if n > 0 {
-			if refIsUserTag(d.Tag) {
+			if psiRefIsUserTag(d.Tag) {
 				d.UserDefined = r.Bytes(n)
 			} else {
 				d.Unknown = &astits.DescriptorUnknown{Tag: d.Tag, Content: r.Bytes(n)}
@@ -266,9 +266,9 @@ func psiGenTime(r *Rng) time.Time {
 		if r.Bool() {
 			raw = [5]byte{byte(mjd >> 8), byte(mjd), byte(r.Bits(8)), byte(r.Bits(8)), byte(r.Bits(8))}
 		}
-		t := refDecodeTime(raw[:])
-		if _, taken := refRawTimes[t.Unix()]; !taken {
-			refRawTimes[t.Unix()] = raw
+		t := psiRefDecodeTime(raw[:])
+		if _, taken := psiRefRawTimes[t.Unix()]; !taken {
+			psiRefRawTimes[t.Unix()] = raw
 		}
 		return t
 	}
@@ -276,9 +276,9 @@ func psiGenTime(r *Rng) time.Time {
 	if r.Chance(1, 6) {
 		h, m, s = []int{0, 23}[r.Intn(2)], []int{0, 59}[r.Intn(2)], []int{0, 59}[r.Intn(2)]
 	}
-	t := time.Unix(int64(mjd-refMJDEpoch)*86400+int64(h*3600+m*60+s), 0).UTC()
-	if raw, taken := refRawTimes[t.Unix()]; taken {
-		return refDecodeTime(raw[:]) // same instant; keeps the registered spelling
+	t := time.Unix(int64(mjd-psiRefMJDEpoch)*86400+int64(h*3600+m*60+s), 0).UTC()
+	if raw, taken := psiRefRawTimes[t.Unix()]; taken {
+		return psiRefDecodeTime(raw[:]) // same instant; keeps the registered spelling
 	}
 	return t
 }
@@ -346,19 +346,19 @@ var psiGenNames = []string{"PAT", "PMT", "SDT", "NIT", "EIT", "TOT"}
 
 func psiUnit(ss ...*astits.PSISection) *astits.PSIData {
 	d := &astits.PSIData{Sections: ss}
-	refFinish(d)
+	psiRefFinish(d)
 	return d
 }
 
 func psiStop(tid int) *astits.PSISection {
-	return &astits.PSISection{Header: &astits.PSISectionHeader{TableID: astits.PSITableID(tid), TableType: refTableName(tid)}}
+	return &astits.PSISection{Header: &astits.PSISectionHeader{TableID: astits.PSITableID(tid), TableType: psiRefTableName(tid)}}
 }
 
 // unassigned table ids (the parsing stops there)
 func psiGenUnknownTid(r *Rng) int {
 	for {
 		t := int(r.Bits(8))
-		if !refKnown(t) && t != rTidNull {
+		if !psiRefKnown(t) && t != rTidNull {
 			return t
 		}
 	}
